@@ -198,11 +198,14 @@ PROPS = {
         "assumptions": ["no event buffer overflows (<= EventBufsiz/4 events in flight)", "filters are pure"],
     },
     "C07": {
-        "engines": [tree_engine("c07", ("C07",), FSUB_KINDS, 1296, 12000), tree_engine("step", ("C07",), FSUB_KINDS, 300, 6000)],
+        "engines": [tree_engine("c07", ("C07",), FSUB_KINDS, 1296, 12000), tree_engine("step", ("C07",), FSUB_KINDS, 300, 6000),
+                    tree_engine("burst", ("C07",), FSUB_KINDS, 500, 8000)],
         "rule": "tree engine mode c07: EXHAUSTIVE over 16 parent contents (subsets of 4 objects) x ordered pairs of the 9-filter family "
                 "(equal by construction, overlapping, disjoint, Null, All, FN) (thorough: plus triples), for SubscribeWithFilter, "
                 "CloneWithFilter(+subscriber) and SubscribeForFilter; each Refilter at quiescence; the drained events must be exactly one "
-                "Delete per cached object the new filter rejects and one Create per parent object newly accepted. Plus random stepwise trees.",
+                "Delete per cached object the new filter rejects and one Create per parent object newly accepted. Plus random stepwise trees, "
+                "and burst trees in which several Refilter calls (A->B->A ...) are issued back to back without quiescence: at the next quiescent "
+                "point the node must hold the view of the LAST filter handed to Refilter.",
         "trusted_base": TREE_TB,
         "assumptions": ["no parent events in flight at the Refilter (stepwise regime)"],
     },
